@@ -600,7 +600,7 @@ def compile_assign(
 def compile_deftype(compiler, expr, root, tp, name, value):
     value = compiler.compile(value)
     return value + asty.TypeAlias(expr,
-       name = asty.Name(name, id = mangle(name), ctx = ast.Store()),
+       name = asty.Name(name, id = mangle(compiler._nonconst(name)), ctx = ast.Store()),
        value = value.force_expr,
         **digest_type_params(compiler, tp))
 
